@@ -141,8 +141,12 @@ namespace ST
             // Negate in the unsigned type; std::abs() is undefined for the most negative value
             formatter.format(num < 0 ? 0 - static_cast<unsigned int>(num)
                                      :     static_cast<unsigned int>(num), 10, false);
-            if (num < 0)
+            if (num < 0) {
+                // Make room for the sign and the digits at once, so that a
+                // failed allocation leaves the stream unchanged
+                expand_buffer(formatter.size() + 1);
                 append_char('-');
+            }
             return append(formatter.text(), formatter.size());
         }
 
@@ -159,8 +163,12 @@ namespace ST
             // Negate in the unsigned type; std::abs() is undefined for the most negative value
             formatter.format(num < 0 ? 0 - static_cast<unsigned long>(num)
                                      :     static_cast<unsigned long>(num), 10, false);
-            if (num < 0)
+            if (num < 0) {
+                // Make room for the sign and the digits at once, so that a
+                // failed allocation leaves the stream unchanged
+                expand_buffer(formatter.size() + 1);
                 append_char('-');
+            }
             return append(formatter.text(), formatter.size());
         }
 
@@ -177,8 +185,12 @@ namespace ST
             // Negate in the unsigned type; std::abs() is undefined for the most negative value
             formatter.format(num < 0 ? 0 - static_cast<unsigned long long>(num)
                                      :     static_cast<unsigned long long>(num), 10, false);
-            if (num < 0)
+            if (num < 0) {
+                // Make room for the sign and the digits at once, so that a
+                // failed allocation leaves the stream unchanged
+                expand_buffer(formatter.size() + 1);
                 append_char('-');
+            }
             return append(formatter.text(), formatter.size());
         }
 
